@@ -263,7 +263,14 @@ func (g *gen) idExt() string {
 	case 2:
 		return g.word(1, 4) + "@" + g.word(1, 4) + ".com"
 	case 3:
-		return g.word(1, 2) + "*" + g.word(0+1, 2)
+		switch g.r.Intn(3) { // '*' is special only when it is the whole id: inside, trailing, doubled
+		case 0:
+			return g.word(1, 2) + "*" + g.word(0+1, 2)
+		case 1:
+			return g.word(1, 3) + "*"
+		default:
+			return "**"
+		}
 	default:
 		return g.word(1, 2) + ":" + g.word(1, 2) + ":" + g.word(1, 2)
 	}
